@@ -7,5 +7,29 @@ MODULES = [
     'contracts.taskfuncs',
     'contracts.datacls',
 ]
-EXTRA_CHECKS = {}
-EXTRA_REPLAY = {}
+
+
+def _standins():
+    from contracts import standins
+    return standins
+
+
+class _Lazy(dict):
+    """extra (bounded, native) checks per property, resolved lazily so that importing `contracts` stays cheap"""
+
+    def get(self, prop, default=None):
+        s = _standins()
+        table = {'C06': [s.c06_roundtrip]}
+        return table.get(prop, default if default is not None else [])
+
+
+EXTRA_CHECKS = _Lazy()
+
+
+class _LazyReplay(dict):
+    def __getitem__(self, name):
+        s = _standins()
+        return {'c06_roundtrip': s.replay_c06}[name]
+
+
+EXTRA_REPLAY = _LazyReplay()
